@@ -377,6 +377,34 @@ def _guard(run: Run, fa, vc: FuncInfo, ret_stmt, nodep) -> None:
         run.check(_has_evidence(atoms, key), "C05.R3", vc, ret_stmt, f"inlined only if {msg}", f"a helper call is inlined without checking that {msg}: a parameter is left unbound or bound to the wrong argument", "return the call intact otherwise")
 
 
+def _params_without_annotations(at, fargs) -> bool:
+    """at is `f.args` re-made without annotations: a copy of it whose parameter lists are rebuilt from the names
+    (ast.arg(arg=a.arg)), vararg / kwarg likewise, defaults untouched"""
+    if at is None or at[0] != "upd":
+        return False
+    base, upd = at[1], dict(at[2])
+    if base != ("app", ("global", "copy.copy"), (fargs,), ()):
+        return False
+    if set(upd) - {"posonlyargs", "args", "kwonlyargs", "vararg", "kwarg"} or not {"posonlyargs", "args", "kwonlyargs", "vararg", "kwarg"} <= set(upd):
+        return False
+
+    def bare(x, src) -> bool:
+        return x[0] == "new" and x[1] == "arg" and {k_ for k_, v_ in x[2] if v_ != ("const", None)} == {"arg"} and dict(x[2])["arg"] == ("attr", src, "arg")
+
+    for k in ("posonlyargs", "args", "kwonlyargs"):
+        c = upd[k]
+        src = ("attr", fargs, k)
+        if not (c[0] == "comp" and len(c[3]) == 1 and c[3][0][0] == src and not c[3][0][1] and bare(c[2], ("elem", src))):
+            return False
+    for k in ("vararg", "kwarg"):
+        c = upd[k]
+        src = ("attr", fargs, k)
+        alts = unphi_terms(c) if c[0] != "ifexp" else [c[2], c[3]]
+        if not all(a == ("const", None) or bare(a, src) for a in alts) or not any(a != ("const", None) for a in alts):
+            return False
+    return True
+
+
 def check_rewrite_func(run: Run, ctx, m, rule: str) -> None:
     """rewrite_func_as_lambda: a one-line def becomes Lambda(<the def's own arguments object>, <its return expression>)
     (also C03.R5: the def form must recover the function that was passed, parameters and defaults included)."""
@@ -390,10 +418,19 @@ def check_rewrite_func(run: Run, ctx, m, rule: str) -> None:
     for s, n in rets:
         t = strip_sites(fr.term_of(s.value, n))
         d = dict(t[2]) if t[0] == "new" and t[1] == "Lambda" else {}
-        ok_args = d.get("args") == ("attr", fp, "args")
+        at = d.get("args")
+        fargs = ("attr", fp, "args")
+        same_obj = at == fargs
+        ok_args = _params_without_annotations(at, fargs)
         b = d.get("body")
         ok_body = b is not None and b[0] == "attr" and b[2] == "value" and b[1][0] == "index" and b[1][2] == 0
-        run.check(ok_args and ok_body, rule, rf, s, "result is Lambda(f.args, <the single statement>.value)", f"rewrite_func_as_lambda returns {show(t)[:140]}", term=show(t))
+        if same_obj and ok_body:
+            run.fail(rule, rf, s, "the lambda is given the def's own arguments object, annotations included: a lambda's parameters cannot carry annotations - the recorded lambda unparses to text that is not python (lambda x: int, s: float=2.0: x * s), and a class used as an annotation is captured as a constant that the transport gate then refuses (def f(e: Event): return e.x cannot be used at all)", "the same parameters, names and defaults, without the annotations", show(t), key="annotations of the def kept on the lambda")
+        else:
+            run.check(ok_args and ok_body, rule, rf, s, "result is Lambda(<f's parameters and defaults, no annotations>, <the single statement>.value)", f"rewrite_func_as_lambda returns {show(t)[:140]}", term=show(t))
+        # what a decorator does to the function is not in its source: a decorated def is refused, not recorded without it
+        deco = any((le_ := len_eq(a_)) is not None and strip_sites(fr.term_of(le_[0])) == ("attr", fp, "decorator_list") and ((le_[1] == "Eq" and pol_ and le_[2] == 0) or (le_[1] in ("Gt", "NotEq") and not pol_ and le_[2] == 0)) for a_, pol_ in Facts(fr, s).atoms) or any((not pol_) and isinstance(a_, ast.Attribute) and a_.attr == "decorator_list" for a_, pol_ in Facts(fr, s).atoms)
+        run.check(deco, rule, rf, s, "a decorated def is refused", "a def with decorators is turned into a lambda of its undecorated body: inspect.getsource follows functools.wraps, so for @in_gev def jet_pt(j): return j.pt() the *wrapped* function is recorded - silently another function than the callable that was passed (and a function registered with @func_adl_callable that has a dummy `return` body is inlined away before the type follower sees the call)", "if f.decorator_list: raise ValueError(..)", key="decorated def recorded without its decorators")
         fx = Facts(fr, s)
         one = False
         isret = False
